@@ -462,6 +462,9 @@ type Frontend struct {
 	//
 	RedirectFromCode int
 	RedirectToCode   int
+	//
+	// the auth proxy binds of the last commit, see Changed()
+	bindListCommitted []AuthProxyBind
 }
 
 // DefaultHost ...
